@@ -248,10 +248,11 @@ def run(ctx, R, tier):
     R.check(bool(tbs), "C07-R3", "handleRequest|reply-carries-traceback", "the catch-all passes a formatted traceback to the error reply", hr.loc(),
             "no error reply is built with errors.format_traceback(...)")
     from ..report import Rules
+    from ..report import run_shared as _run_shared
     from . import c05
     R5 = Rules("C05")
     try:
-        c05.run(ctx, R5, tier)
+        _run_shared(ctx, c05, R5, tier)
     except AnalysisError as _shared_x:
         # the other property's own anchors are gone on this tree: its check reports that; what it produced before is still shared
         R.note("obligations shared from C05 are incomplete on this tree: %s" % _shared_x)
@@ -296,7 +297,7 @@ def run(ctx, R, tier):
     from . import c13
     R13 = Rules("C13")
     try:
-        c13.run(ctx, R13, tier)
+        _run_shared(ctx, c13, R13, tier)
     except AnalysisError as _shared_x:
         # the other property's own anchors are gone on this tree: its check reports that; what it produced before is still shared
         R.note("obligations shared from C13 are incomplete on this tree: %s" % _shared_x)
@@ -308,13 +309,26 @@ def run(ctx, R, tier):
     from . import c10 as _c10
     R10_ = Rules("C10")
     try:
-        _c10.run(ctx, R10_, tier)
+        _run_shared(ctx, _c10, R10_, tier)
     except AnalysisError as _shared_x:
         # the other property's own anchors are gone on this tree: its check reports that; what it produced before is still shared
         R.note("obligations shared from C10 are incomplete on this tree: %s" % _shared_x)
     for o in R10_.obs:
         if o.key in ("C10-R1|get_next_stream_item|removal-cannot-raise", "C10-R1|get_next_stream_item|handler-reraises"):
             R.add("C07-R6", "stream|" + o.key.split("|", 2)[2], o.desc + " (a KeyError from the bookkeeping would replace the generator's own exception / StopIteration at the caller)", o.ok, o.loc, o.detail)
+    # every error reply is encoded by a call of the library's stateless module-level encoder (shared with C01-R2): the serializer objects are process-wide singletons used by
+    # all server threads, and an exception is encoded through the `default=` hook - Python code in the middle of the encoding where threads switch. One encoder object
+    # (msgpack.Packer, json.JSONEncoder with state) kept on the serializer splices two overlapping replies into each other: both callers get garbage instead of their exception
+    from . import c01 as _c01
+    R01_ = Rules("C01")
+    try:
+        _run_shared(ctx, _c01, R01_, tier)
+    except AnalysisError as _shared_x:
+        R.note("obligations shared from C01 are incomplete on this tree: %s" % _shared_x)
+    for o in R01_.obs:
+        if o.rule == "C01-R2" and o.key.endswith("|encode-callee"):
+            R.add("C07-R5", "%s|reply-encoded-by-a-stateless-library-call" % o.key.split("|")[1], o.desc + " (a per-message call of the module-level encoder: concurrent error replies "
+                  "cannot run into each other)", o.ok, o.loc, o.detail)
     # the wrapper hands its exception to the same encoder a plain reply uses (class_to_dict: custom converters registered for the exception's class included)
     wsd = ctx.fn("Pyro5.core._ExceptionWrapper.__serialized_dict__")
     enc = [c for c in ctx.calls_to(wsd, "Pyro5.serializers.SerializerBase.class_to_dict")]
